@@ -93,6 +93,17 @@ def plan(case, rng):
     anyoff = [k for k in range(len(case.text) + 1) if geo.addressable[k]]
     for off in rng.sample(anyoff, min(len(anyoff), 15)):
         add(1, off, "anywhere")
+    # the model costs ~ (characters of the document) x (positions): thin out the interior columns of identifiers and
+    # argument lists of very long documents (first column of every identifier and every other class are kept)
+    budget = 5_000_000
+    if len(case.text) * len(out) > budget:
+        first = set()
+        for o in case.occs:
+            first.add(geo.pos[spans[o["tok"]][0]])
+        fixed = [p for p in out if p[3] not in ("ident", "arglist") or (p[3] == "ident" and (p[1], p[2]) in first)]
+        rest = [p for p in out if not (p[3] not in ("ident", "arglist") or (p[3] == "ident" and (p[1], p[2]) in first))]
+        room = max(0, budget // max(1, len(case.text)) - len(fixed))
+        out = fixed + rng.sample(rest, min(len(rest), room))
     return out
 
 
